@@ -182,6 +182,44 @@ Theorem C08_exception_message_concat : forall args, forallb stateless args = tru
 Proof. exact exception_message_concat. Qed.
 Print Assumptions C08_exception_message_concat.
 
+(* an argument may ALSO be convertible to a string (std::filesystem::path, a type with operator std::string(),
+   a string_view, ...): the message is made of the STREAM texts only — it is a function of them, for any number of
+   arguments; the conversion text of an argument (ADual shown conv) can be dropped or replaced, at every
+   position of a message of every length, without changing the message; a single argument gives its stream
+   text, which is what it gives after an empty first argument (raise(x) = raise("", x)) *)
+Theorem C08_message_by_stream_text : forall args1 args2, map render args1 = map render args2 ->
+  exception_what args1 = exception_what args2.
+Proof. exact message_by_stream_text. Qed.
+Print Assumptions C08_message_by_stream_text.
+
+Theorem C08_message_ignores_conversion : forall args, exception_what (map forget_conv args) = exception_what args.
+Proof. exact message_ignores_conversion. Qed.
+Print Assumptions C08_message_ignores_conversion.
+
+Theorem C08_message_conversion_irrelevant_at : forall pre shown c1 c2 post,
+  exception_what (pre ++ ADual shown c1 :: post) = exception_what (pre ++ ADual shown c2 :: post).
+Proof. exact message_conversion_irrelevant_at. Qed.
+Print Assumptions C08_message_conversion_irrelevant_at.
+
+Theorem C08_message_single_dual : forall shown conv, exception_what [ADual shown conv] = shown.
+Proof. exact message_single_dual. Qed.
+Print Assumptions C08_message_single_dual.
+
+Theorem C08_message_single_is_pair : forall a, exception_what [a] = exception_what [AStr []; a].
+Proof. exact message_single_is_pair. Qed.
+Print Assumptions C08_message_single_is_pair.
+
+(* the same for the formatter: the text does not depend on the conversion texts of the arguments *)
+Theorem C08_format_ignores_conversion : forall fmt ops,
+  format_chain fmt (map (map_op forget_conv) ops) = format_chain fmt ops.
+Proof. exact format_ignores_conversion. Qed.
+Print Assumptions C08_format_ignores_conversion.
+
+Theorem C08_format_conversion_irrelevant : forall fmt ops c,
+  format_chain fmt (map (map_op (with_conv c)) ops) = format_chain fmt ops.
+Proof. exact format_conversion_irrelevant. Qed.
+Print Assumptions C08_format_conversion_irrelevant.
+
 (* the decimal printer used to render integer arguments in the model reads back to the number *)
 Theorem C08_print_dec_roundtrip : forall z, read_dec (print_dec z) = Some z.
 Proof. exact print_dec_roundtrip. Qed.
@@ -227,6 +265,12 @@ Example C08_ex_stream_ok : stream_chain {| content := B "pre:"; width := 6; fill
 Proof. reflexivity. Qed.
 Example C08_ex_grouped : render_loc (AInt (-1234567)) = B "-1,234,567" /\ render_loc (AInt 999) = B "999"
   /\ render_loc (AHalf 1234) = B "1,234;5" /\ render_loc (ADbl 100000) = B "100,000" /\ render_loc (AHalf (-1)) = B "-0;5".
+Proof. repeat split; reflexivity. Qed.
+Example C08_ex_dual : exception_what [dual KPath (B "/var/my ""app"".log")] = B """/var/my \""app\"".log"""
+  /\ conv_text (dual KPath (B "/var/log")) = Some (B "/var/log")
+  /\ exception_what [dual KTagged (B "x")] = B "<x>" /\ exception_what [AStr (B ""); dual KTagged (B "x")] = B "<x>"
+  /\ exception_what [dual KCstr (B "a"); dual KExplicit (B "b"); dual KStreamOnly (B "c")] = B "[a](b)#c"
+  /\ format_chain (B "{}|{}") [Pct (dual KTagged (B "x")); Args [dual KView (B "y")]] = Ok (B "<x>|y").
 Proof. repeat split; reflexivity. Qed.
 Example C08_ex_print_dec : print_dec 0 = B "0" /\ print_dec (-9223372036854775808) = B "-9223372036854775808".
 Proof. split; reflexivity. Qed.
